@@ -610,7 +610,7 @@ impl Driver {
             "wp" => {
                 // Engine A-prov: direct call of wait_payment
                 let hash = step["hash"].as_str().unwrap_or("h1").to_string();
-                let prov = PayPaymentProvider::new(Arc::new(Rpc::new(String::new())), Duration::from_secs(60), false);
+                let prov = PayPaymentProvider::new(Arc::new(Rpc::new(String::new())), Duration::from_secs(60), self.job.scen.cfg.xpay);
                 let h2 = hash.clone();
                 tokio::spawn(async move {
                     let r = prov.wait_payment(cat::hash_of(cat::hash_index(&h2))).await;
@@ -631,7 +631,7 @@ impl Driver {
                 let hash = step["hash"].as_str().unwrap_or("h1").to_string();
                 let inv = step["inv"].as_u64().unwrap_or(1) as usize;
                 let bolt11 = String::from_utf8(cat::invoice_bytes(&self.job.scen.invs[inv - 1])).unwrap_or_default();
-                let prov = PayPaymentProvider::new(Arc::new(Rpc::new(String::new())), Duration::from_secs(60), false);
+                let prov = PayPaymentProvider::new(Arc::new(Rpc::new(String::new())), Duration::from_secs(60), self.job.scen.cfg.xpay);
                 let h2 = hash.clone();
                 tokio::spawn(async move {
                     let r = prov
